@@ -27,7 +27,7 @@ def run_scheduled(mode, schedule, workdir, idx, delay=""):
     if mode == "wrap":
         grep_file = os.path.join(workdir, "grep.txt")
         env["STUB_OUT"] = grep_file
-        child = f"{core.DELTA} --no-gitconfig --paging never git grep -n foo"
+        child = f"{core.DELTA} --no-gitconfig --paging never --line-numbers git grep -n foo"   # (--line-numbers makes Config::from ask for the calling process: the earliest query there is)
         stdin = b""
     else:
         diff_file = os.path.join(workdir, "in.diff")
